@@ -75,8 +75,13 @@ def _raise_first(sub: str, spec: dict, failures: list) -> None:
     raise Violation(*failures[0])
 
 
+class _InputModified(Exception):
+    """ the code under test changed the objects it was given """
+
+
 def _guard(clause: str, failures: list, func, *args, **kwargs):
-    """ calls the code under test; an exception is a failure of `clause` (totality) """
+    """ calls the code under test; an exception raised inside antismash is a failure of `clause` (totality),
+        anything else is a defect of this harness and passes through (exit 2) """
     try:
         return True, func(*args, **kwargs)
     except Exception as err:  # pylint: disable=broad-except
@@ -85,6 +90,8 @@ def _guard(clause: str, failures: list, func, *args, **kwargs):
             if "/antismash/" in frame.filename:
                 where = f"{frame.filename.split('/antismash/', 1)[1]}:{frame.name}"
                 break
+        if not where and not isinstance(err, _InputModified):
+            raise
         failures.append((clause, {"exception": type(err).__name__, "message": str(err)[:200], "where": where}))
         return False, None
 
@@ -584,7 +591,7 @@ def _hmmer_failures(spec: dict) -> tuple:
         before = list(hits)
         result = remove_overlapping(hits, dict(cutoffs), overlap_limit=limit)
         if hits != before:
-            raise ValueError("the input list was modified")
+            raise _InputModified("the input list was modified")
         return [_hmmer_key(hit) for hit in result]
 
     ok, base = _guard("hmmer_total", failures, run, list(range(len(raw_hits))))
@@ -913,7 +920,7 @@ def _docking_failures(spec: dict) -> tuple:
         before = {name: list(hits) for name, hits in domains.items()}
         result = filter_nonterminal_docking_domains(record, domains)
         if {name: list(hits) for name, hits in domains.items()} != before:
-            raise ValueError("the input was modified")
+            raise _InputModified("the input was modified")
         return {name: [(h.hit_id, h.query_start, h.query_end) for h in hits] for name, hits in result.items()}
 
     identity = [list(range(len(p["hits"]))) for p in proteins]
